@@ -114,8 +114,9 @@ func (c *SubscriptionManager) RemoveSubscription(data model.SubscriptionManageme
 	for _, item := range c.subscriptionEntries {
 		itemAddress := item.ClientFeature.Address()
 
+		// the stored address has no device part as long as the address of the remote device is unknown
 		if item.ClientFeature.Device().Ski() != remoteDevice.Ski() ||
-			!reflect.DeepEqual(itemAddress.Device, clientAddress.Device) ||
+			(itemAddress.Device != nil && !reflect.DeepEqual(itemAddress.Device, clientAddress.Device)) ||
 			!reflect.DeepEqual(itemAddress.Entity, clientAddress.Entity) ||
 			!reflect.DeepEqual(itemAddress.Feature, clientAddress.Feature) ||
 			!reflect.DeepEqual(item.ServerFeature, serverFeature) {
